@@ -251,6 +251,14 @@ func (h *httpServer) checkIPWhitelist(addr string) bool {
 		return true
 	}
 	whitelist := h.cfg.GetModuleConfig().RPC.Whitelist
+	// the legacy key "whitlist" is honoured exactly as rpc.InitIPWhitelist does for the other endpoints
+	legacy := h.cfg.GetModuleConfig().RPC.Whitlist
+	if len(legacy) == 1 && legacy[0] == "*" {
+		return true
+	}
+	if len(whitelist) == 0 {
+		whitelist = legacy
+	}
 	// "*" means allow all IPs, consistent with rpc.InitIPWhitelist
 	if len(whitelist) == 0 || (len(whitelist) == 1 && whitelist[0] == "*") {
 		return true
